@@ -1,15 +1,19 @@
 #!/bin/bash
-# Processes every delivered seed under /tmp/seed/*.out that has no result yet (3 at a time).
+# usage: seed_batch.sh [dir=/tmp/seed] [tag=] [jobs=3]
+# Processes every delivered seed under <dir>/*.out that has no result yet.
+DIR=${1:-/tmp/seed}; TAG=${2:-}; JOBS=${3:-3}
+R=/tmp/sv${TAG:+_$TAG}
 cd /verif
 jobs=()
-for d in /tmp/seed/C*.out; do
+for d in $DIR/C*.out; do
   id=$(basename $d .out)
   for suf in "" 2; do
     [ -f "$d/meta$suf.json" ] && [ -f "$d/patch$suf.diff" ] || continue
-    r=/tmp/sv_${id}${suf:+-$suf}.json
+    r=${R}_${id}${suf:+-$suf}.json
     [ -f "$r" ] && continue
     echo "pending" > $r
     jobs+=("$id $suf")
   done
 done
-printf '%s\n' "${jobs[@]}" | xargs -P 3 -I{} bash -c 'set -- {}; id=$1; suf=$2; python3 tools/seed_verify.py $id $suf > /tmp/sv_${id}${suf:+-$suf}.json.tmp 2>&1; mv /tmp/sv_${id}${suf:+-$suf}.json.tmp /tmp/sv_${id}${suf:+-$suf}.json'
+[ ${#jobs[@]} -eq 0 ] && exit 0
+printf '%s\n' "${jobs[@]}" | xargs -P $JOBS -I{} bash -c 'set -- {}; id=$1; suf=$2; r='$R'_${id}${suf:+-$suf}.json; python3 tools/seed_verify.py $id $suf --dir='$DIR' '${TAG:+--tag=$TAG}' > $r.tmp 2>&1; mv $r.tmp $r'
